@@ -26,7 +26,9 @@ ALSO = {"C19-2": ["C15"], "C07-3": ["C15"], "C09-3": ["C16"],
         "C01-4": ["C04"], "C05-3": ["C09"], "C11-3": ["C07"],
         "C18-3": ["C13"], "C19-4": ["C15"],
         # round 3
-        "C01-6": ["C08"], "C03-6": ["C17"]}
+        "C01-6": ["C08"], "C03-6": ["C17"],
+        # round 4
+        "C20-7": ["C15"]}
 
 
 def run(check, patch, tier, seed="1"):
